@@ -168,10 +168,10 @@ SIG = {
     'tweak_taproot_pubkey': ('utils.py', 'tweak_taproot_pubkey', [('internal_pubkey', 'Bytes'), ('tweak', 'Int')], 'Bytes × Bool'),
     'tweak_taproot_privkey': ('utils.py', 'tweak_taproot_privkey', [('privkey', 'Bytes'), ('tweak', 'Int')], 'Bytes'),
     'i_to_b32': ('utils.py', 'i_to_b32', [('i', 'Int')], 'Bytes'),
-    # ECDSA input signing: python-ecdsa's deterministic signer and DER codec are parameters (the signer as a function of the extra
-    # entropy: None for the first attempt); the grinding loop is unbounded in Python — the translation carries a bound as a parameter
+    # ECDSA input signing: python-ecdsa's deterministic signer and DER codec are parameters (the signer as a function of the digest and
+    # the extra entropy: None for the first attempt); the grinding loop is unbounded in Python — the translation carries a bound as a parameter
     'sign_input': ('keys.py', 'PrivateKey._sign_input',
-                   [('ecdsa_sign', 'Option Bytes → Bytes'), ('sigdecode_der', 'Bytes → Int → Except PyErr (Int × Int)'),
+                   [('ecdsa_sign', 'Bytes → Option Bytes → Bytes'), ('sigdecode_der', 'Bytes → Int → Except PyErr (Int × Int)'),
                     ('sigencode_der', 'Int → Int → Int → Bytes'), ('grind_bound', 'Nat'), ('tx_digest', 'Bytes'), ('sighash', 'Int')],
                    'Bytes'),
     # WIF: base58check (third party) and python-ecdsa's SigningKey.from_string as parameters; the configured network's prefix a
@@ -218,7 +218,33 @@ SIG = {
                            [('hashlib_sha256', 'Bytes → Bytes'), ('OPS', 'List (String × Bytes)'), ('self_key_bytes', 'Bytes'),
                             ('pubkey_bytes', 'Bytes'), ('tx_digest', 'Bytes'), ('sighash', 'Int'), ('scripts', 'Py.PyScripts'),
                             ('tweak', 'Bool')], 'Bytes'),
+    # the public signing methods: digest of the transaction object (its fields as parameters tx_*), then the private signer
+    'pk_sign_input': ('keys.py', 'PrivateKey.sign_input',
+                      [('hashlib_sha256', 'Bytes → Bytes'), ('OPS', 'List (String × Bytes)'),
+                       ('ecdsa_sign', 'Bytes → Option Bytes → Bytes'), ('sigdecode_der', 'Bytes → Int → Except PyErr (Int × Int)'),
+                       ('sigencode_der', 'Int → Int → Int → Bytes'), ('grind_bound', 'Nat'),
+                       ('tx_version', 'Bytes'), ('tx_inputs', 'List Py.PyTxIn'), ('tx_outputs', 'List Py.PyTxOut'), ('tx_witnesses', 'List Py.PyWit'),
+                       ('tx_locktime', 'Bytes'), ('txin_index', 'Int'), ('script', 'List Py.PyTok'), ('sighash', 'Int')], 'Bytes'),
+    'pk_sign_segwit_input': ('keys.py', 'PrivateKey.sign_segwit_input',
+                             [('hashlib_sha256', 'Bytes → Bytes'), ('OPS', 'List (String × Bytes)'),
+                              ('ecdsa_sign', 'Bytes → Option Bytes → Bytes'), ('sigdecode_der', 'Bytes → Int → Except PyErr (Int × Int)'),
+                              ('sigencode_der', 'Int → Int → Int → Bytes'), ('grind_bound', 'Nat'),
+                              ('tx_version', 'Bytes'), ('tx_inputs', 'List Py.PyTxIn'), ('tx_outputs', 'List Py.PyTxOut'),
+                              ('tx_locktime', 'Bytes'), ('txin_index', 'Int'), ('script', 'List Py.PyTok'), ('amount', 'Int'), ('sighash', 'Int')],
+                             'Bytes'),
+    'pk_sign_taproot_input': ('keys.py', 'PrivateKey.sign_taproot_input',
+                              [('hashlib_sha256', 'Bytes → Bytes'), ('OPS', 'List (String × Bytes)'), ('self_key_bytes', 'Bytes'),
+                               ('pubkey_bytes', 'Bytes'), ('tx_version', 'Bytes'), ('tx_inputs', 'List Py.PyTxIn'),
+                               ('tx_outputs', 'List Py.PyTxOut'), ('tx_locktime', 'Bytes'), ('txin_index', 'Int'),
+                               ('utxo_scripts', 'List (List Py.PyTok)'), ('amounts', 'List Int'), ('script_path', 'Bool'),
+                               ('tapleaf_script', 'List Py.PyTok'), ('tapleaf_scripts', 'Py.PyScripts'), ('sighash', 'Int'), ('tweak', 'Bool')],
+                              'Bytes'),
 }
+# the public signing wrappers: methods called on the transaction object / on self -> generated functions
+WRAPFUNS = {'pk_sign_input', 'pk_sign_segwit_input', 'pk_sign_taproot_input'}
+TX_METHODS = {'get_transaction_digest': 'legacy_digest', 'get_transaction_segwit_digest': 'segwit_digest',
+              'get_transaction_taproot_digest': 'taproot_digest'}
+SELF_SIGNERS = {'_sign_input': 'sign_input', '_sign_taproot_input': 'sign_taproot_input'}
 # callees of schnorr.py that take the SHA-256 parameter first / return bytes / return bool
 SCH_CALLS = {'tagged_hash': ('schnorr_tagged_hash', True), 'bytes_from_int': ('schnorr_bytes_from_int', False),
              'bytes_from_point': ('schnorr_bytes_from_point', False), 'xor_bytes': ('schnorr_xor_bytes', False),
@@ -248,7 +274,7 @@ STR_CALLS = {'bech32_create_checksum': ('bech32_create_checksum', False), 'bech3
              'decode': ('segwit_decode', False)}
 # functions over the script tree; recursive ones get a fuel parameter (the depth of the tree + 1: proved never exhausted)
 TREEFUNS = {'tag_hashed_merkle_root': ('get_tag_hashed_merkle_root', '(Py.treeDepth scripts + 1)'), 'calculate_tweak': (None, None),
-            'sign_taproot_input': (None, None), 'pubkey_to_taproot_hex': (None, None), 'traverse_level': ('traverse_level', '(Py.treeDepth level + 1)'),
+            'sign_taproot_input': (None, None), 'pubkey_to_taproot_hex': (None, None), 'pk_sign_taproot_input': (None, None), 'traverse_level': ('traverse_level', '(Py.treeDepth level + 1)'),
             'generate_merkle_path': (None, None), 'control_block_to_bytes': (None, None)}
 # a nested function's `nonlocal` counter, threaded: parameter in, extra result component out
 NONLOCAL_STATE = {'traverse_level': 'traversed'}
@@ -437,7 +463,7 @@ class Tr:
         s.name = name; s.tmp = 0; s.pre = []; s.declared = set(); s.points = set(); s.tuple5 = set()
         s.toklists = set(); s.tokvars = set(); s.optables = set(); s.byteslists = set(); s.reclists = {}; s.recvars = {}; s.revtables = set()
         s.hoisted = set(); s.selfcopies = set(); s.scriptlists = set(); s.fmtvars = {}; s.fmtpre = {}; s.hoisting = False; s.ratvars = set(); s.optvars = set(); s.charvars = set(); s.hexvars = set(); s.tweak_point_ctx = False; s.treevars = {}; s.pairvars = set(); s.strvars = set(); s.revars = {}
-        s.fconsts = FILE_CONSTS.get(file, {})
+        s.fconsts = FILE_CONSTS.get(file, {}); s.file = file
 
     def fail(s, n, why):
         raise Unsupported(f'{s.name}: line {getattr(n, "lineno", "?")}: unsupported {why}: {ast.dump(n)[:100]}')
@@ -785,21 +811,60 @@ class Tr:
             return CONSTS['Secp256k1Params._order']
         if (isinstance(n, ast.Call) and isinstance(n.func, ast.Attribute) and n.func.attr == 'sign_digest_deterministic'
                 and isinstance(n.func.value, ast.Attribute) and n.func.value.attr == 'key' and isinstance(n.func.value.value, ast.Name)
-                and n.func.value.value.id == 'self' and len(n.args) == 1 and isinstance(n.args[0], ast.Name) and n.args[0].id == 'tx_digest'):
+                and n.func.value.value.id == 'self' and len(n.args) == 1 and s.isbytes(n.args[0])):
             kw = {k.arg: k.value for k in n.keywords}
             if not (set(kw) <= {'sigencode', 'hashfunc', 'extra_entropy'} and isinstance(kw.get('sigencode'), ast.Name)
                     and kw['sigencode'].id == 'sigencode_der' and isinstance(kw.get('hashfunc'), ast.Attribute)
                     and kw['hashfunc'].attr == 'sha256' and getattr(kw['hashfunc'].value, 'id', '') == 'hashlib'):
                 s.fail(n, 'sign_digest_deterministic arguments')
             ent = f'(some {s.e(kw["extra_entropy"])})' if 'extra_entropy' in kw else 'none'
-            return f'(ecdsa_sign {ent})'
+            return f'(ecdsa_sign {s.e(n.args[0])} {ent})'          # the signer is a function of the digest and the extra entropy
         if isinstance(n, ast.Call) and isinstance(n.func, ast.Name):
             if n.func.id == 'i_to_b32' and len(n.args) == 1: return s.eff(f'i_to_b32 {s.e(n.args[0])}')
             if n.func.id == 'sigdecode_der' and len(n.args) == 2: return s.eff(f'sigdecode_der {s.e(n.args[0])} {s.e(n.args[1])}')
             if n.func.id == 'sigencode_der' and len(n.args) == 3: return f'(sigencode_der {s.e(n.args[0])} {s.e(n.args[1])} {s.e(n.args[2])})'
         return None
 
+    def e_wrap(s, n):
+        """tx.<digest method>(...) and self.<private signer>(...) inside the public signing methods"""
+        if not (isinstance(n, ast.Call) and isinstance(n.func, ast.Attribute) and isinstance(n.func.value, ast.Name)): return None
+        obj, meth = n.func.value.id, n.func.attr
+        if obj == 'tx' and meth in TX_METHODS: gen = TX_METHODS[meth]; pre = 'tx_'
+        elif obj == 'self' and meth in SELF_SIGNERS: gen = SELF_SIGNERS[meth]; pre = None
+        else: return None
+        file, qual, gparams, _ = SIG[gen]
+        tree = s.tree if file == s.file else ast.parse(open(f'{REPO}/bitcoinutils/{file}').read())
+        d = find(tree, qual)
+        pyparams = [a.arg for a in d.args.args[1:]]
+        defaults = dict(zip(pyparams[len(pyparams) - len(d.args.defaults):], d.args.defaults)) if d.args.defaults else {}
+        if d.args.vararg or d.args.kwarg or d.args.kwonlyargs: s.fail(n, 'callee with * parameters')
+        given = {}
+        if len(n.args) > len(pyparams): s.fail(n, 'too many arguments')
+        for k_, a_ in zip(pyparams, n.args): given[k_] = a_
+        for kw_ in n.keywords:
+            if kw_.arg is None or kw_.arg not in pyparams or kw_.arg in given: s.fail(n, 'keyword argument')
+            given[kw_.arg] = kw_.value
+        out = []
+        for gp, gt in gparams:
+            if gp in pyparams:
+                if gp in given: a_ = given[gp]
+                elif gp in defaults: a_ = defaults[gp]
+                else: s.fail(n, f'missing argument {gp}')
+                if gt == 'Bool': out.append(s.cond(a_))
+                elif gt == 'Py.PyScripts':
+                    if not (isinstance(a_, ast.Name) and a_.id in s.treevars): s.fail(n, 'script-tree argument')
+                    out.append(a_.id)
+                else: out.append(s.e(a_))
+            elif gp.startswith('self_') and pre is not None and (pre + gp[5:]) in s.params: out.append(pre + gp[5:])
+            elif gp in s.params: out.append(gp)          # hashlib_sha256, OPS, the third-party signer parameters, self_key_bytes, pubkey_bytes
+            else: s.fail(n, f'no value for the parameter {gp} of {gen}')
+        if set(given) - {gp for gp, _ in gparams}: s.fail(n, 'argument that the generated callee does not take')
+        return s.eff(f'{gen} ' + ' '.join(out))
+
     def e(s, n):
+        if s.name in WRAPFUNS:
+            r = s.e_wrap(n)
+            if r is not None: return r
         if s.name in ('from_wif', 'to_wif', 'is_address_valid', 'address_to_hash160', 'address_to_string'):
             r = s.e_wif(n)
             if r is not None: return r
@@ -1158,6 +1223,7 @@ class Tr:
             if nm == 'hex' and s.name in PARSERS and isinstance(f, ast.Attribute): return s.isbytes(f.value)
             if nm == 'full_pubkey_gen' and s.name in TWEAKFUNS: return True
             if s.name in PUBFUNS and nm in ('to_string', 'to_hex'): return True
+            if s.name in WRAPFUNS and (nm in TX_METHODS or nm in SELF_SIGNERS): return True
             if s.name == 'sign_input' and nm in ('sign_digest_deterministic', 'sigencode_der'): return True
             if s.name in ('from_wif', 'to_wif', 'is_address_valid', 'address_to_hash160') and nm in ('b58decode',): return True
             if s.name == 'to_wif' and nm == 'to_bytes' and isinstance(f, ast.Attribute) and getattr(f.value, 'id', '') == 'self': return True
